@@ -176,6 +176,30 @@ def run(ctx, B):
                 if f is None or f[0] not in canon or f != canon[f[0]]:
                     V("%s|variant-name|%s" % (what, v), "lookup of %r (not a name of the %s list) succeeds and returns %r, which is not an entry of the catalogue" % (v, what, (f or [None])[:3]),
                       [dict(op=opn, sig="s", args=[v])])
+        # 'addressable by name' in whatever ORDER the names are asked for, in one process: descending, every name after its successor and after its predecessor,
+        # every second name, a fixed shuffle, and each name twice (a search that starts where the last one ended, a cursor, a move-to-front list)
+        for what, opn, nl in (("nist", "NISTByName", names), ("radio", "RadioByName", rnames), ("crystal", "Crystal_GetCrystal", cn)):
+            n_ = len(nl)
+            idx = list(range(n_))
+            rs = np.random.RandomState(20260928); sh_ = list(idx); rs.shuffle(sh_)
+            orders = {"descending": idx[::-1], "successor-then-name": [k for i in range(n_ - 1) for k in (i + 1, i)], "predecessor-then-name": [k for i in range(1, n_) for k in (i - 1, i)],
+                      "every-second-then-the-rest": idx[::2] + idx[1::2], "shuffled": sh_, "each-twice": [k for i in idx for k in (i, i)],
+                      "failing-lookup-in-between": [k for i in idx for k in (i, -1)]}
+            Y = xrl.Xrl("plain", cfg, build=B, nproc=1)
+            r0_, l0_ = Y.op(opn, "s", nl); b0_ = xrl.parse_blob_lines(l0_)
+            for on, od in orders.items():
+                q_ = [nl[k] if k >= 0 else "no such entry" for k in od]
+                ro_, lo_ = Y.op(opn, "s", q_); bo_ = xrl.parse_blob_lines(lo_)
+                ctx.add(evaluations=len(q_))
+                for j, k in enumerate(od):
+                    if k < 0:
+                        continue
+                    if (ro_["flags"][j] & F_ERR) or bo_.get(j) != b0_.get(k):
+                        V("%s|by-name-order|%s|%s" % (what, on, nl[k]), "in the order '%s' the lookup of %r (after %r) %s; in ascending order it returns the entry" % (
+                            on, nl[k], q_[j - 1] if j else None, "fails" if ro_["flags"][j] & F_ERR else "returns a different entry"),
+                          [dict(op=opn, sig="s", args=[q_[j - 1]]), dict(op=opn, sig="s", args=[nl[k]])] if j else [dict(op=opn, sig="s", args=[nl[k]])])
+                        break
+            Y.close()
         # the catalogue stays addressable in every way after the documented explicit insertion (one crystal that sorts first / in the middle / last, and two in a row)
         for ins in (["0_first"], ["Mm_middle"], ["zz_last"], ["0_first", "00_before"], ["zz_last", "zzz_after", "Aa"]):
             Y = xrl.Xrl("plain", cfg, build=B, nproc=1)
